@@ -75,6 +75,8 @@ AfterStore(st, s) ==
         cls == IF s.via # "" /\ s.recv > 0 THEN st.last[s.recv].c ELSE "?"
         tn == UNION {st.taint[r] : r \in rd} \cup (IF s.n > 0 THEN HotKeys(st, {s.n} \cup SeqToSet(s.d)) ELSE {})
               \cup (IF Dev_UnmodelledMutator(cls, s.via) THEN {KeyUnmodelled} ELSE {})
+              \* assigned inside a with block that contains a break / continue statement (the block may be left by that jump)
+              \cup (IF st.jact # {} THEN {KeyBreakSupp} ELSE {})
               \* t += u on tuples goes through tuple.__add__ (class (c)); the statement has no node of its own
               \cup (IF s.via = "aug+" /\ cls = "tuple" /\ s.arg > 0 /\ st.last[s.arg].c = "tuple" /\ st.last[s.recv].items # << >>
                     THEN {KeyTupleAdd} ELSE {})
@@ -161,6 +163,7 @@ Classify(o, i, st, ev, nd) ==
        ELSE IF KeyBreakSupp \in tn THEN Say(tid, "dev:" \o KeyBreakSupp \o ":" \o ToString(i))
        ELSE IF KeyGuardCapture \in tn THEN Say(tid, "dev:" \o KeyGuardCapture \o ":" \o ToString(i))
        ELSE IF nd.wt THEN Say(tid, "dev:" \o KeyWhileElse \o ":" \o ToString(i))
+       ELSE IF nd.lc THEN Say(tid, "dev:" \o KeyLoopComposite \o ":" \o ToString(i))
        ELSE IF Dev_KnownListMutated(o.stores, SeqToSet(nd.r), ev.i) THEN Say(tid, "dev:" \o KeyKnownList \o ":" \o ToString(i))
        ELSE IF KeyAbsTruthy \in tn THEN Say(tid, "dev:" \o KeyAbsTruthy \o ":" \o ToString(i))
        ELSE IF ev.i = Never THEN Say(tid, "viol:NeverIsNeverReached:" \o ToString(i))
